@@ -1,28 +1,43 @@
 #!/bin/sh
-# Offline setup after a fresh restore: regenerate Gen/*, build the Lean library
-# (models, proofs, property theorems, bridges), the driver executable, and warm the Go
-# build cache with the harness compiled into /repo's working tree.
-set -e
+# Offline setup after a fresh restore: regenerate Gen/*, build the Lean library (models,
+# proofs, property theorems, drivers, bridges) and warm the Go build cache with each
+# property's harness compiled into /repo's working tree.
+#
+# A bridge theorem that does not build (because /repo's source differs from what the model
+# was validated against) is NOT a setup failure: it is a broken obligation that the
+# property's check reports.  Setup only fails when the property theorems or a driver do not
+# build.
 cd "$(dirname "$0")"
 export GOFLAGS=-mod=mod GOPROXY=off
 REPO=${VERIF_REPO:-/repo}
 T=$(mktemp -d)
 trap 'rm -rf "$T"' EXIT
 mkdir -p lean/CueVerif/Gen
-for g in $(python3 -c "import json,glob;print(' '.join(sorted({g for f in glob.glob('props/C*.json') for g in json.load(open(f)).get('gen',[])})))"); do
-  lc=$(printf '%s' "$g" | tr 'A-Z' 'a-z')
-  (cd extract && go build -o "$T/extract" main.go translate.go $(ls lib_*.go 2>/dev/null) $(ls "$lc"*.go))
-  "$T/extract" -repo "$REPO" -gen "$g" > "$T/$g.lean"
-  cmp -s "$T/$g.lean" "lean/CueVerif/Gen/$g.lean" || cp "$T/$g.lean" "lean/CueVerif/Gen/$g.lean"
+rc=0
+PROPS=$(ls props/C*.json | sed 's#props/##; s#\.json##' | sort)
+for p in $PROPS; do
+  for g in $(python3 -c "import json;print(' '.join(json.load(open('props/$p.json')).get('gen',[])))"); do
+    lc=$(printf '%s' "$g" | tr 'A-Z' 'a-z')
+    if (cd extract && go build -o "$T/extract" main.go translate.go $(ls lib_*.go 2>/dev/null) $(ls "$lc"*.go)) && "$T/extract" -repo "$REPO" -gen "$g" > "$T/$g.lean"; then
+      cmp -s "$T/$g.lean" "lean/CueVerif/Gen/$g.lean" || cp "$T/$g.lean" "lean/CueVerif/Gen/$g.lean"
+    else
+      echo "setup: WARNING extractor failed for $g (the check for $p will report it)"
+      printf -- '-- extractor failed\nnamespace CueVerif.Gen.%s\ndef unavailable : Unit := ()\nend CueVerif.Gen.%s\n' "$g" "$g" > "lean/CueVerif/Gen/$g.lean"
+    fi
+  done
 done
-MODS=$(python3 -c "
-import json,os,glob
-out=[]
-for f in sorted(glob.glob('props/C*.json')):
-    p=os.path.basename(f)[:-5]
-    out.append('CueVerif.Props.'+p); out.append('drv_'+p)
-    if os.path.exists('lean/CueVerif/Bridge/'+p+'.lean'): out.append('CueVerif.Bridge.'+p)
-print(' '.join(out))")
-(cd lean && lake build $MODS)
-for f in props/C*.json; do ./harness/build.sh "$T/h" "$(basename "$f" .json)"; done
-echo setup ok
+MODS=""
+for p in $PROPS; do MODS="$MODS CueVerif.Props.$p drv_$p"; done
+if ! (cd lean && lake build $MODS); then
+  echo "setup: property theorems / drivers failed to build"; rc=1
+fi
+for p in $PROPS; do
+  if [ -f "lean/CueVerif/Bridge/$p.lean" ]; then
+    (cd lean && lake build CueVerif.Bridge.$p >"$T/bridge-$p.log" 2>&1) || { echo "setup: WARNING bridge of $p does not build against $REPO (the check for $p will report it)"; tail -5 "$T/bridge-$p.log"; }
+  fi
+done
+for p in $PROPS; do
+  ./harness/build.sh "$T/h" "$p" || echo "setup: WARNING harness of $p does not build against $REPO (the check for $p will report it)"
+done
+[ $rc = 0 ] && echo setup ok
+exit $rc
